@@ -842,7 +842,7 @@ func (m *BatchMon) onPost(c *eng.Ctx, s batchState, life lifeState, ev *eng.Even
 		chk("C06.R2,C09.R3,C11.R3", "post", false, "no per-item store into the result list handed to post was found ("+results.Pretty()+")")
 		return
 	}
-	chk("C06.R2,C09.R3,C11.R3", "post", rr.broken == "", "result slots are not written once per iteration: "+rr.broken)
+	chk("C06.R2,C09.R3,C11.R3,C17.R1", "post", rr.broken == "", "result slots are not written once per iteration: "+rr.broken)
 	chk("C06.R2,C09.R3,C11.R3", "post", rr.startOK, "the first iteration does not write slot 0")
 	chk("C06.R2,C07.R5,C09.R4,C11.R3,C17.R1", "post", rr.resBad == "", rr.resBad)
 	chk("C20.R6,C11.R5", "post", rr.cutBad == "", rr.cutBad)
